@@ -224,3 +224,20 @@ class bbox_overlap_slices_badshape:
     def setup(B, n=1):
         return dict(self=mkbox(B, 'a'), shape=tuple(B.int('d%d' % i) for i in range(n)))
     raises = {'ValueError': lambda: True}
+
+
+@contract(BBOX + '.to_region', props=['C19', 'C04'])
+class bbox_as_a_rectangle_region_covers_exactly_its_pixels:
+    """the rectangle region made from a box has the box's extent: centred on the box centre (x, y), shape[1] wide and shape[0] high,
+    axis-parallel - so its own bounding box is the box again"""
+    def setup(B):
+        return dict(self=mkbox(B, 'b'))
+    pre = lambda self: is_bbox(self) and self.ixmax > self.ixmin and self.iymax > self.iymin
+    post = {
+        'is_rectangle': lambda result: result.__class__.__name__ == 'RectanglePixelRegion',
+        'extent': lambda self, result:
+            result.center.x - result.width / 2 == self.ixmin - 0.5 and result.center.x + result.width / 2 == self.ixmax - 0.5
+            and result.center.y - result.height / 2 == self.iymin - 0.5 and result.center.y + result.height / 2 == self.iymax - 0.5,
+        'axis_parallel': lambda result: result.angle.to_value('rad') == 0,
+        'round_trip': lambda self, result: result.bounding_box == self,
+    }
